@@ -16,7 +16,7 @@ Not orderable -> the real flush must raise and the database must be exactly what
 A second pass replays histories on a *strict* schema (Pony's DDL with the ON DELETE clauses stripped, so nothing but the
 statement order can satisfy the backend).
 """
-import json, re, sqlite3
+import json, random, re, sqlite3
 from pony.orm import Database, Required, Optional, Set, PrimaryKey, db_session, flush, commit, rollback
 from pony.orm import core
 
@@ -202,44 +202,67 @@ class World:
         return {'status': status, 'refs': refs, 'queue': queue, 'removed': sorted(removed), 'added': sorted(added)}, by_tag, by_pk, ent_of, objs
 
     def parse_trace(self, by_tag, by_pk, objs):
-        """the recorded statements as model writes; link rows of one executemany are sorted"""
+        """the recorded statements as model writes, in execution order; also the raw (sql, args, write) triples"""
         # objects inserted during this flush got their pk now
         for k, o in enumerate(objs):
             if o._pkval_ is not None: by_pk.setdefault((self.E.index(o.__class__), o._pkval_), k)
-        out = []; unknown = []
+        items = []; unknown = []
         for sql, argsl in self.log:
             m = INS.match(sql)
             if m:
                 t = m.group(1); cols = [c.strip().strip('"') for c in m.group(2).split(',')]
                 if t in self.tables:
-                    for a in argsl: out.append(['insert', by_tag.get(a[cols.index('tag')], -1)])
+                    for a in argsl: items.append((sql, a, ['insert', by_tag.get(a[cols.index('tag')], -1)]))
                 elif t in self.m2m_tables:
-                    rows = []
                     for a in argsl:
-                        rows.append(['link'] + sorted(by_pk.get((self.m2m_tables[t][c], v), -1) for c, v in zip(cols, a)))
-                    out.extend(sorted(rows))
+                        items.append((sql, a, ['link'] + sorted(by_pk.get((self.m2m_tables[t][c], v), -1) for c, v in zip(cols, a))))
                 else: unknown.append(sql)
                 continue
             m = UPD.match(sql)
             if m:
                 t = m.group(1); nset = m.group(2).count('= ?')
-                for a in argsl: out.append(['update', by_pk.get((self.tables[t], a[nset]), -1)])
+                for a in argsl: items.append((sql, a, ['update', by_pk.get((self.tables[t], a[nset]), -1)]))
                 continue
             m = DEL.match(sql)
             if m:
                 t = m.group(1)
                 if t in self.tables:
-                    for a in argsl: out.append(['delete', by_pk.get((self.tables[t], a[0]), -1)])
+                    for a in argsl: items.append((sql, a, ['delete', by_pk.get((self.tables[t], a[0]), -1)]))
                 elif t in self.m2m_tables:
-                    cols = re.findall(r'"(\w+)" = \?', m.group(2)); rows = []
+                    cols = re.findall(r'"(\w+)" = \?', m.group(2))
                     for a in argsl:
-                        rows.append(['unlink'] + sorted(by_pk.get((self.m2m_tables[t][c], v), -1) for c, v in zip(cols, a)))
-                    out.extend(sorted(rows))
+                        items.append((sql, a, ['unlink'] + sorted(by_pk.get((self.m2m_tables[t][c], v), -1) for c, v in zip(cols, a))))
                 else: unknown.append(sql)
                 continue
             if sql.startswith(('SELECT', 'BEGIN', 'PRAGMA')) or not sql.strip(): continue
             unknown.append(sql)
-        return out, unknown
+        return [it[2] for it in items], unknown, items
+
+    def backup(self):
+        """copy of the committed database on a plain sqlite3 connection with foreign keys on"""
+        dst = sqlite3.connect(':memory:')
+        with db_session:
+            self.db.get_connection().backup(dst)
+        dst.execute('PRAGMA foreign_keys = ON')
+        return dst
+
+    def blocking_rows_are_deleted_optionals(self, p):
+        """after the strict backend refused `DELETE p`: are all rows that still reference p objects that are themselves
+        marked_to_delete (later in the queue) and refer to p through a non-cascading (Optional) attribute?"""
+        cache = self.db._get_cache()
+        con = cache.connection
+        found = 0
+        for E2 in self.E:
+            for attr in E2._attrs_with_columns_:
+                if not attr.reverse or attr.reverse.entity is not p.__class__: continue
+                cur = sqlite3.Cursor(con)
+                cur.execute('SELECT "%s" FROM "%s" WHERE "%s" = ?' % (E2._pk_columns_[0], E2._table_, attr.columns[0]), [p._pkval_])
+                for (pk2,) in cur.fetchall():
+                    found += 1
+                    o2 = cache.indexes[E2._pk_attrs_].get(pk2)
+                    if o2 is None or o2._status_ != 'marked_to_delete' or attr.reverse.cascade_delete or not isinstance(attr, Optional):
+                        return False
+        return found > 0
 
 # ---------------------------------------------------------------- the engine's own orderability analysis
 
@@ -296,6 +319,9 @@ class Run:
         self.problems = []        # oracle failures: (what, detail)
         self.next_tag = 1
         self.stats = {}
+        self.prng = random.Random(1000003 * ctx.seed + 17)    # permutation experiments (independent of op generation)
+        self.perm_reqs = []       # (model 'accepts' request, what SQLite said, context)
+        self.all_explicit = all(not e['auto'] for e in spec['ents'])
 
     def count(self, k): self.stats[k] = self.stats.get(k, 0) + 1
 
@@ -399,7 +425,6 @@ class Run:
             if not cache.modified: return True
             ab, by_tag, by_pk, ent_of, objs = w.abstract()
         cyclic = find_cycle(ab)
-        opt_cycle = False
         del w.log[:]
         err = None
         try:
@@ -407,7 +432,20 @@ class Run:
             else: flush()
         except Exception as e:
             err = e
-        trace, unknown = w.parse_trace(by_tag, by_pk, objs)
+        trace, unknown, items = w.parse_trace(by_tag, by_pk, objs)
+        # rows that exist when the flush starts; the hypotheses of theorem C16_fk_accepts on the real session
+        HASROW = ('loaded', 'modified', 'marked_to_delete', 'inserted', 'updated')
+        rows0 = [k for k, st in enumerate(ab['status']) if st in HASROW]
+        def stable(y): return ab['status'][y] in HASROW and ab['status'][y] != 'marked_to_delete'
+        hyp = True
+        for x, st in enumerate(ab['status']):
+            rs = ab['refs'][x] if st == 'created' else [r for r in ab['refs'][x] if r[1]] if st == 'modified' else []
+            for t, _ in rs:
+                if not (ab['status'][t] == 'created' or stable(t)): hyp = False
+        for pr in ab['added']:
+            for e in pr:
+                if not ((ab['status'][e] == 'created' and e in ab['queue']) or stable(e)): hyp = False
+        self.count('fk-hypotheses:' + ('hold' if hyp else 'FAIL'))
         if err is None:
             real = {'ok': trace}
         else:
@@ -415,7 +453,7 @@ class Run:
             if isinstance(err, core.UnresolvableCyclicDependency):
                 real['chain'] = str(err).split(': ', 1)[1].split(' -> ')
         rec = {'kind': kind, 'request': dict(ab, op='flush'), 'real': real, 'ent_of': ent_of, 'cyclic': cyclic,
-               'partial_trace': trace if err is not None else None}
+               'partial_trace': trace if err is not None else None, 'rows0': rows0, 'hyp': hyp, 'items': items}
         self.records.append(rec)
         self.count('flush-point:' + kind)
         self.count('outcome:' + ('ok' if err is None else type(err).__name__))
@@ -424,8 +462,11 @@ class Run:
         if any(-1 in wr[1:] for wr in trace): self.problems.append(('infrastructure: statement for an unknown object', trace))
         # ---------------- property oracle
         if not cyclic and err is not None:
-            self.problems.append(('flush raised %s although the pending references can be ordered' % type(err).__name__,
-                                  {'error': str(err)[:300], 'statements_so_far': trace}))
+            det = {'error': str(err)[:300], 'statements_so_far': trace}
+            if self.strict and trace and trace[-1][0] == 'delete' and 'FOREIGN KEY' in str(err):
+                try: det['blocked_only_by_deleted_optional_referrers'] = w.blocking_rows_are_deleted_optionals(objs[trace[-1][1]])
+                except Exception as e2: det['classification_error'] = repr(e2)
+            self.problems.append(('flush raised %s although the pending references can be ordered' % type(err).__name__, det))
         if cyclic and err is None:
             # the backend accepted an order the engine thinks impossible: not a property violation, but the model must explain it
             self.count('cyclic-but-flushed')
@@ -438,6 +479,8 @@ class Run:
         w = self.w; done = []
         w.objs = {}
         failed = None
+        nrec0 = len(self.records)
+        bak = w.backup() if (self.all_explicit and not self.strict) else None
         with db_session:
             try:
                 n = self.rng.choice([1, 2, 3, 4, 5, 6, 8, 10]) if ops is None else len(ops)
@@ -471,8 +514,31 @@ class Run:
             if not on: self.problems.append(('infrastructure: PRAGMA foreign_keys is off', None))
             if bad: self.problems.append(('the committed database has dangling foreign keys', bad))
             w.last_dump = dump
+            if bak is not None and len(self.records) == nrec0 + 1: self.permutations(bak, self.records[-1])
+        if bak is not None: bak.close()
         w.refresh_persist()
         return done
+
+    def permutations(self, bak, rec):
+        """validate the FK database model (`applyWrites`) against SQLite: the statements of the session's only flush are
+        re-executed on copies of the pre-session database in permuted orders; acceptance must agree with the model"""
+        items = rec['items']
+        if len(items) < 2 or len(items) > 9 or any(it[2][0] in ('delete', 'unlink') for it in items): return
+        orders = [list(range(len(items))), list(range(len(items)))[::-1]]
+        for _ in range(4):
+            o = list(range(len(items))); self.prng.shuffle(o); orders.append(o)
+        for o in orders:
+            tmp = sqlite3.connect(':memory:'); bak.backup(tmp); tmp.execute('PRAGMA foreign_keys = ON')
+            ok = True
+            try:
+                for i in o: tmp.execute(items[i][0], items[i][1])
+            except sqlite3.IntegrityError as e:
+                ok = False
+                if 'FOREIGN KEY' not in str(e): ok = None     # some other constraint: not comparable
+            tmp.close()
+            if ok is None: self.count('perm:other-constraint'); continue
+            self.count('perm:sqlite-' + ('accepts' if ok else 'refuses'))
+            self.perm_reqs.append(({'op': 'accepts', 'refs': rec['request']['refs'], 'rows': rec['rows0'], 'writes': [items[i][2] for i in o]}, ok))
 
     def run(self, nsessions=None):
         if self.recorded is not None:
@@ -542,6 +608,25 @@ def check_records(ctx, runs):
         if rec['cyclic'] != (model.get('error') == 'UnresolvableCyclicDependency'):
             ctx.divergence('model verdict and the engine\'s cycle analysis disagree', {'request': rec['request']}, model=model, impl={'cyclic': rec['cyclic']})
 
+def check_fk_model(ctx, runs):
+    """(a) the model's own statement list is accepted by the FK database model whenever the hypotheses of C16_fk_accepts
+    hold on the real session (what the theorem says); (b) `applyWrites` agrees with SQLite on permuted statement lists"""
+    if not ctx.driver.ok: return
+    reqs = []; exp = []
+    for r in runs:
+        for rec in r.records:
+            if 'ok' in rec['real'] and rec['hyp']:
+                reqs.append({'op': 'accepts', 'refs': rec['request']['refs'], 'rows': rec['rows0'], 'writes': rec['real']['ok']})
+                exp.append(('real-order', True, rec['request']))
+        for req, ok in r.perm_reqs:
+            reqs.append(req); exp.append(('permutation', ok, req))
+    outs = ctx.driver('C16', reqs)
+    for (kind, ok, inp), out in zip(exp, outs):
+        ctx.case([kind, inp.get('writes'), inp.get('rows')], nontrivial=True, kind='fk-model:' + kind)
+        ctx.count('fk-model:%s:%s' % (kind, 'accepted' if out.get('accepted') else 'refused'))
+        if out.get('accepted') != ok:
+            ctx.divergence('FK database model (applyWrites) and SQLite disagree on a statement order (%s)' % kind, inp, model=out, impl={'accepted': ok})
+
 def explore(ctx, strict, nhist):
     runs = []
     rng = ctx.rng
@@ -588,7 +673,7 @@ def report(ctx, spec, hist, strict, what, detail, shrunk=False):
         # history that Pony's own DDL (ON DELETE SET NULL / CASCADE) accepts
         st = (det or {}).get('statements_so_far') if isinstance(det, dict) else None
         if what.startswith('flush raised') and st and st[-1][0] == 'delete' and 'FOREIGN KEY' in str(det.get('error')) \
-                and not try_history(ctx, spec, hist, False):
+                and det.get('blocked_only_by_deleted_optional_referrers') is True and not try_history(ctx, spec, hist, False):
             key = STRICT_DELETE_KEY
             ctx.count('strict:delete-refused')
     if key != STRICT_DELETE_KEY and not shrunk:
@@ -603,6 +688,7 @@ def run(ctx):
     runs = explore(ctx, False, n)
     runs += explore(ctx, True, ctx.scale(40, 500))
     check_records(ctx, runs)
+    check_fk_model(ctx, runs)
 
 def replay(ctx, data):
     inp = data.get('input') or {}
@@ -613,6 +699,6 @@ def replay(ctx, data):
         for what, detail in r.problems:
             if what.startswith('infrastructure'): raise RuntimeError(what)
             report(ctx, inp['spec'], inp['history'], strict, what, detail, shrunk=True)
-        check_records(ctx, [r])
+        check_records(ctx, [r]); check_fk_model(ctx, [r])
     else:
         run(ctx)
